@@ -78,41 +78,38 @@ Section W.
   Definition push (b : bytes) (o : out) : out := (rev_append b (fst o), snd o).
   Definition finish (o : out) : bytes := frev (fst o).
 
-  (* writer.rs ends_with_line_comment: does the last line of the text end inside a "//" comment? *)
-  Fixpoint elc_scan (l : bytes) (in_string in_bc : bool) : bool :=
+  (* writer.rs ends_with_line_comment: does the text, scanned from its beginning (outside comments and strings), end
+     inside a "//" comment? *)
+  Fixpoint elc_scan (l : bytes) (in_string in_bc in_lc : bool) : bool :=
     match l with
-    | [] => false
+    | [] => in_lc
     | c :: tl =>
-        if in_string then
-          if aeq c bs then match tl with _ :: tl' => elc_scan tl' true false | [] => false end
-          else if aeq c dq then elc_scan tl false false
-          else elc_scan tl true false
+        if in_lc then elc_scan tl false false (negb (aeq c lf))
+        else if in_string then
+          if aeq c bs then match tl with _ :: tl' => elc_scan tl' true false false | [] => false end
+          else if aeq c dq then elc_scan tl false false false
+          else elc_scan tl true false false
         else if in_bc then
           match tl with
-          | n :: tl' => if aeq c "*" && aeq n "/" then elc_scan tl' false false else elc_scan tl false true
+          | n :: tl' => if aeq c "*" && aeq n "/" then elc_scan tl' false false false else elc_scan tl false true false
           | [] => false
           end
-        else if aeq c dq then elc_scan tl true false
+        else if aeq c dq then elc_scan tl true false false
         else
           match tl with
           | n :: tl' =>
-              if aeq c "/" && aeq n "*" then elc_scan tl' false true
-              else if aeq c "/" && aeq n "/" then true
-              else elc_scan tl false false
+              if aeq c "/" && aeq n "*" then elc_scan tl' false true false
+              else if aeq c "/" && aeq n "/" then elc_scan tl' false false true
+              else elc_scan tl false false false
           | [] => false
           end
     end.
-  Definition ends_with_line_comment (text : bytes) : bool := elc_scan text false false.
+  Definition ends_with_line_comment (text : bytes) : bool := elc_scan text false false false.
 
   (* Writer::track_line_comment *)
-  Definition after_last_newline (text : bytes) : option bytes :=
-    let '(tail_rev, rest) := span (fun c => negb (aeq c lf)) (frev text) in
-    match rest with [] => None | _ => Some (frev tail_rev) end.
   Definition track_line_comment (text : bytes) (o : out) : out :=
-    match after_last_newline text with
-    | Some last => (fst o, ends_with_line_comment last)
-    | None => if snd o then o else (fst o, ends_with_line_comment text)
-    end.
+    if existsb (fun c => aeq c lf) text then (fst o, ends_with_line_comment text)
+    else if snd o then o else (fst o, ends_with_line_comment text).
 
   Definition add_whitespace (indent : nat) (offset : N) (o : out) : out :=
     let offset := if (offset =? 0) && snd o then 1 else offset in
@@ -167,7 +164,8 @@ Section W.
         emit_group indent r included
           (if is_included then o
            else track_line_comment text
-                  (push text (if so =? 0 then o else (rev_append (repeat_bytes [lf] (N.to_nat so)) (fst o), false))))
+                  (push text (let so := if (so =? 0) && snd o then 1 else so in
+                              if so =? 0 then o else (rev_append (repeat_bytes [lf] (N.to_nat so)) (fst o), false))))
     end.
 
   Definition add_group (indent : nat) (group : list (ginfo bytes)) (o : out) : out :=
@@ -269,8 +267,49 @@ Section W.
   Definition comment_info (c : comment) : ginfo bytes :=
     GComment (cm_text c) (cm_included c) (cm_uid c) (cm_line c) (cm_so c).
 
-  (* [write_into fuel v indent o]: the writer [o] of the enclosing element continues with the items of [v]
-     (struct references share the parent's Writer); [write_node] is a stringify call with a fresh Writer *)
+  (* the items of one element; [wi] writes a nested element one level down ([wi v indent o]: the writer [o] of the enclosing
+     element continues with the items of [v] - struct references share the parent's Writer; a child of a tagged group is
+     written by a stringify call with a fresh Writer) *)
+  Section Items.
+    Variable wi : value -> nat -> out -> out.
+    Fixpoint write_items (is_block : bool) (indent : nat) (cms : list comment)
+             (its : list item) (fields : list value) (kids : list (list value)) (o : out) {struct its} : out :=
+      match its with
+      | [] => o
+      | IField _ ty :: r =>
+          match fields with
+          | fv :: fr =>
+              write_items is_block indent cms r fr kids
+                (match ty, fv with
+                 | FStruct _, _ => wi fv indent o
+                 | FArray t _, VList l => fold_left (fun acc x => write_scalar indent t x acc) l o
+                 | FSeq (FStruct _) _, VList l => fold_left (fun acc x => wi x indent acc) l o
+                 | FSeq t _, VList l => fold_left (fun acc x => write_scalar indent t x acc) l o
+                 | _, _ => write_scalar indent ty fv o
+                 end)
+          | [] => o
+          end
+      | ITagged _ _ titems :: r =>
+          let mine := firstn (length titems) kids in
+          let group :=
+            flat_map (fun p =>
+               map (fun k =>
+                      let l := layout_of k in
+                      GTag (bytes_of (ti_tag (fst p))) (l_incfile l) (l_uid l) (l_line l) (l_so l) (l_eo l)
+                           (ti_block (fst p))
+                           (match l_incfile l with
+                            | None => finish (wi k (Datatypes.S indent) empty_out)
+                            | Some _ => []
+                            end)
+                           (pos_restrict k)) (snd p))
+             (combine titems mine) in
+          let group := if is_block then group ++ map comment_info cms else group in
+          write_items is_block indent cms r fields (skipn (length titems) kids) (add_group indent group o)
+      end.
+  End Items.
+
+  (* [write_into fuel v indent o]: the writer [o] of the enclosing element continues with the items of [v];
+     [write_node] is a stringify call with a fresh Writer *)
   Fixpoint write_into (fuel : nat) (v : value) (indent : nat) (o : out) {struct fuel} : out :=
     match fuel with
     | O => o
@@ -289,40 +328,8 @@ Section W.
                     | _ => o
                     end
                 | None =>
-                    let is_block := match t_kind td with KBlock => true | _ => false end in
-                    (fix items (its : list item) (fields : list value) (kids : list (list value)) (o : out) {struct its} : out :=
-                       match its with
-                       | [] => o
-                       | IField _ ty :: r =>
-                           match fields with
-                           | fv :: fr =>
-                               items r fr kids
-                                 (match ty, fv with
-                                  | FStruct _, _ => write_into f fv indent o
-                                  | FArray t _, VList l => fold_left (fun acc x => write_scalar indent t x acc) l o
-                                  | FSeq (FStruct _) _, VList l => fold_left (fun acc x => write_into f x indent acc) l o
-                                  | FSeq t _, VList l => fold_left (fun acc x => write_scalar indent t x acc) l o
-                                  | _, _ => write_scalar indent ty fv o
-                                  end)
-                           | [] => o
-                           end
-                       | ITagged _ _ titems :: r =>
-                           let mine := firstn (length titems) kids in
-                           let group :=
-                             flat_map (fun p =>
-                                map (fun k =>
-                                       let l := layout_of k in
-                                       GTag (bytes_of (ti_tag (fst p))) (l_incfile l) (l_uid l) (l_line l) (l_so l) (l_eo l)
-                                            (ti_block (fst p))
-                                            (match l_incfile l with
-                                             | None => finish (write_into f k (Datatypes.S indent) empty_out)
-                                             | Some _ => []
-                                             end)
-                                            (pos_restrict k)) (snd p))
-                              (combine titems mine) in
-                           let group := if is_block then group ++ map comment_info cms else group in
-                           items r fields (skipn (length titems) kids) (add_group indent group o)
-                       end) (t_items td) fields kids o
+                    write_items (write_into f) (match t_kind td with KBlock => true | _ => false end) indent cms
+                                (t_items td) fields kids o
                 end
             end
         | _ => o
